@@ -27,9 +27,11 @@ type nilFlow struct {
 	nonnilPath []node // stores non-nil path of the flow from conflict point to dereference point
 }
 
-// addNilPathNode adds a new node to the nil path.
-func (n *nilFlow) addNilPathNode(p fmt.Stringer, c fmt.Stringer) {
+// addNilPathNode adds a new node to the nil path. The site position is the complete (untruncated)
+// position of the node; it is never printed and only serves to tell nil paths apart for grouping.
+func (n *nilFlow) addNilPathNode(p fmt.Stringer, c fmt.Stringer, sitePosition token.Position) {
 	nodeObj := newNode(p, c)
+	nodeObj.sitePosition = sitePosition
 
 	// Note that in the implication graph, we traverse backwards from the point of conflict to the source of nilability.
 	// Therefore, they are added in reverse order from what the program flow would look like. To account for this we
@@ -76,6 +78,9 @@ type node struct {
 	consumerPosition token.Position
 	producerRepr     string
 	consumerRepr     string
+	// sitePosition is the complete position of the node (if known). Unlike the producer and consumer
+	// positions, whose file names are shortened for printing, it identifies the file uniquely.
+	sitePosition token.Position
 }
 
 // newNode creates a new node from the given producer and consumer representations.
@@ -132,6 +137,12 @@ func pathString(nodes []node) string {
 		// the producer position to keep such flows apart.
 		if !n.consumerPosition.IsValid() && n.producerPosition.IsValid() {
 			path += "@" + n.producerPosition.String()
+		}
+		// The printed positions are shortened to the last directory and the file name by default,
+		// so nodes in two files such as `x/util/u.go` and `y/util/u.go` print the same. Include the
+		// complete position to keep flows from different nil sources apart.
+		if n.sitePosition.IsValid() {
+			path += "@" + n.sitePosition.String()
 		}
 	}
 	return path
